@@ -301,9 +301,9 @@ def audit(module: str, names, timeout=900):
     text = p.stdout + p.stderr
     text = re.sub(r"\s*\n\s+", " ", text)   # join wrapped lines
     res = {n: None for n in names}
-    for m in re.finditer(r"'([^']+)' depends on axioms: \[([^\]]*)\]", text):
+    for m in re.finditer(r"'(\S+)' depends on axioms: \[([^\]]*)\]", text):
         res[m.group(1)] = [a.strip() for a in m.group(2).split(",") if a.strip()]
-    for m in re.finditer(r"'([^']+)' does not depend on any axioms", text):
+    for m in re.finditer(r"'(\S+)' does not depend on any axioms", text):
         res[m.group(1)] = []
     return res
 
